@@ -6,7 +6,7 @@
    the correspondence (the extracted model is the reference verifier). *)
 From Coq Require Import ZArith List.
 From GoIpa Require Import Model.Bytes Model.Alg Model.Transcript Model.Bary Model.Banderwagon Model.IPA Model.Multiproof
-  Proofs.AlgLaws Proofs.MultiproofProofs Proofs.IPAProofs Proofs.ReprProofs Proofs.Transfer.
+  Proofs.AlgLaws Proofs.MultiproofProofs Proofs.IPAProofs Proofs.ReprProofs Proofs.Transfer Proofs.TransferExample.
 Import ListNotations.
 
 (* CheckMultiProof returns an error exactly when: the numbers of commitments, values and
@@ -124,3 +124,24 @@ Proof.
   exact (ipa_check_rel fo go1 go2 hashf rel H0 Ha Hm He Hq).
 Qed.
 Print Assumptions C02_ipa_verifier_transfer.
+
+(* the transfer premises are satisfiable by a representation that is NOT itself a lawful group:
+   fractions (n, d) over any field-like ring, added like fractions, compared by cross-multiplication,
+   encoded through n/d - exactly the situation of projective coordinates - related to the ring's
+   additive group by  rel (n, d) x := d invertible /\ n = x d.  For them the verifier on
+   representations decides like the verifier on the lawful group, although P + (-P) = (0, d^2)
+   is not the identity (0, 1) up to Leibniz equality *)
+Theorem C02_transfer_instance_fractions :
+  forall (F : Type) (fo : FOps F), FieldLaws fo -> forall (hashf : list Z -> list Z),
+  (forall t c1 c2 p1 p2 cs cs' ys zs,
+     cfg_rel (frel fo) c1 c2 -> mp_rel (frel fo) p1 p2 -> Forall2 (frel fo) cs cs' ->
+     mp_check fo (go1 fo) hashf t c1 p1 cs ys zs = mp_check fo (go2 fo) hashf t c2 p2 cs' ys zs)
+  /\ GroupLaws fo (go2 fo)
+  /\ (forall d, fmul fo d d <> f1 fo -> ~ GroupLaws fo (go1 fo)).
+Proof.
+  intros F fo FL hashf. split; [|split].
+  - exact (fractions_verifier_transfer fo FL hashf).
+  - exact (go2_laws fo FL).
+  - exact (go1_not_lawful fo).
+Qed.
+Print Assumptions C02_transfer_instance_fractions.
